@@ -89,7 +89,7 @@ func (g *cGen) inner(live bool, path string, pbad int) (cInner, string) {
 
 // component returns a component.Config and the Coq term `option (vtree verr)`
 func (g *cGen) component(path string, pbad int) (component.Config, string) {
-	switch g.r.Pick(1, 2, 8) {
+	switch g.r.Pick(2, 2, 8) {
 	case 0:
 		return nil, "None"
 	case 1:
@@ -157,6 +157,9 @@ func (g *cGen) section(name string, density int, pbad int) (map[component.ID]com
 // reference occurs before and after every kind of mistake
 var cPrefer []string
 
+// ids of the section a reference list refers to whose configuration is nil
+var cNilIDs []string
+
 func (g *cGen) refs(defined []string, n int, pDangling int, pDup int) ([]component.ID, []string) {
 	var ids []component.ID
 	var ss []string
@@ -171,6 +174,8 @@ func (g *cGen) refs(defined []string, n int, pDangling int, pDup int) ([]compone
 			s = ss[g.r.Intn(len(ss))]
 		case len(defined) == 0 || g.r.Intn(100) < pDangling:
 			s = cIDPool[g.r.Intn(len(cIDPool))]
+		case len(cNilIDs) > 0 && g.r.Intn(100) < 45:
+			s = cNilIDs[g.r.Intn(len(cNilIDs))] // defined, but with a nil configuration
 		case len(cPrefer) > 0 && g.r.Intn(100) < 40:
 			s = cPrefer[g.r.Intn(len(cPrefer))]
 		default:
@@ -350,10 +355,17 @@ func TestVerifC13Cfg(t *testing.T) {
 		out.Stat("pipe.result."+strings.SplitN(strings.Trim(o, "()"), " ", 3)[0], 1)
 	}
 
-	for i, total := 0, vBudget(360, 12); i < total; i++ {
+	for i, total := 0, vBudget(300, 12); i < total; i++ {
 		g := &cGen{r: r}
 		// profile of this case: mostly valid, with mistakes planted at a chosen rate
 		profile := r.Pick(3, 4, 2, 1)
+		// the first 16 cases enumerate the WHOLE domain of telemetry.Config.Validate (4 levels x
+		// readers present/absent x views set/unset) on otherwise mistake-free configurations: a change
+		// of that (translated) function is then met by a concrete configuration on which it shows
+		telExhaustive := i < 16
+		if telExhaustive {
+			profile = 0
+		}
 		pDang, pDup, pBad, pAmb := 0, 0, 0, 0
 		switch profile {
 		case 1:
@@ -416,7 +428,18 @@ func TestVerifC13Cfg(t *testing.T) {
 		expLike := append(cKeys(he), cKeys(hc)...)
 
 		var se []string
-		cfg.Service.Extensions, se = g.refs(nonnil(hx), r.Pick(3, 3, 1), pDang, pDup)
+		nilOf := func(m map[string]bool) []string {
+			var k []string
+			for _, s := range cKeys(m) {
+				if !m[s] {
+					k = append(k, s)
+				}
+			}
+			return k
+		}
+		cNilIDs = nilOf(hx)
+		cfg.Service.Extensions, se = g.refs(nonnil(hx), r.Pick(2, 3, 2), pDang, pDup)
+		cNilIDs = nil
 
 		// pipelines
 		var tpipes []string
@@ -454,7 +477,9 @@ func TestVerifC13Cfg(t *testing.T) {
 				ne = 0
 			}
 			pc.Receivers, d.rs = g.refs(recvLike, nr, pDang, pDup)
+			cNilIDs = nilOf(hp)
 			pc.Processors, d.ps = g.refs(nonnil(hp), r.Pick(3, 3, 2, 1), pDang, pDup)
+			cNilIDs = nil
 			pc.Exporters, d.es = g.refs(expLike, ne, pDang, pDup)
 			cPrefer = nil
 			if pc.Receivers != nil && len(pc.Receivers) == 0 || pc.Exporters != nil && len(pc.Exporters) == 0 {
@@ -480,6 +505,12 @@ func TestVerifC13Cfg(t *testing.T) {
 			nread = 0
 		}
 		views := r.Intn(100) < 8+pDang/2
+		if telExhaustive {
+			lvl = []configtelemetry.Level{configtelemetry.LevelNone, configtelemetry.LevelBasic, configtelemetry.LevelNormal, configtelemetry.LevelDetailed}[i%4]
+			nread = (i / 4) % 2
+			views = i/8 == 1
+			out.Stat("cfg.telemetry.exhaustive", 1)
+		}
 		cfg.Service.Telemetry = telemetry.Config{Metrics: telemetry.MetricsConfig{Level: lvl,
 			MeterProvider: config.MeterProvider{Readers: make([]config.MetricReader, nread)}}}
 		if views {
@@ -605,6 +636,10 @@ func TestVerifC13Cfg(t *testing.T) {
 		}
 		telProblem := (lvl != configtelemetry.LevelNone && nread == 0) || (views && lvl != configtelemetry.LevelDetailed)
 
+		telSeen := errAll != nil && strings.Contains(errAll.Error(), "service::telemetry: ")
+		if telSeen != telProblem {
+			out.Oracle("telemetry-rule", term, fmt.Sprintf("level=%d readers=%d views=%v: telemetry error reported=%v, expected=%v", lvl, nread, views, telSeen, telProblem))
+		}
 		anyProblem := len(problems) > 0 || len(refProblems) > 0 || len(must) > 0 || sigProblem || telProblem
 		if anyProblem && errAll == nil {
 			out.Oracle("mistake-ignored", term, fmt.Sprintf("validation passed although: %v %v %v sig=%v tel=%v", problems, refProblems, must, sigProblem, telProblem))
